@@ -560,6 +560,23 @@ func runDecideCase(c J, ow *obsWriter) {
 	} else {
 		reqTree = realise(c["req"], "", "", unitOf(c))
 		applyNudges(reqTree, c)
+		if vs, ok := c["vscale"].(float64); ok && vs > 0 { // huge magnitudes: every criterion value times a power of two
+			if rm, ok := reqTree.(map[string]interface{}); ok {
+				if ka, ok := rm["knownAlternatives"].([]interface{}); ok {
+					for _, a := range ka {
+						if am, ok := a.(map[string]interface{}); ok {
+							if cm, ok := am["criteria"].(map[string]interface{}); ok {
+								for k, v := range cm {
+									if f, ok := v.(float64); ok {
+										cm[k] = f * vs
+									}
+								}
+							}
+						}
+					}
+				}
+			}
+		}
 		b, err := json.Marshal(reqTree)
 		if err != nil {
 			die(2, "case %v: marshal request: %v", c["id"], err)
@@ -572,6 +589,9 @@ func runDecideCase(c J, ow *obsWriter) {
 		installHook()
 	}
 	p := &projector{unit: unitOf(c), mode: str(c, "num", "exact")}
+	if vs, ok := c["vscale"].(float64); ok {
+		p.vscale = vs
+	}
 	wd := 25.0
 	if t, ok := c["timeoutSec"].(float64); ok {
 		wd = t
